@@ -332,11 +332,16 @@ class SymExec:
                 continue
             if p.end != 'return' or p.ret is None:
                 return None
-            if p.stores:
+            if p.stores and not self.effects:
                 return None         # helper with side effects on attributes: not a pure formula
             for n_ in ast.walk(p.ret):
                 if getattr(n_, '_appended', False):
                     n_._appended = False    # for the caller these are entries of a value, not yet lines
+            if p.stores:
+                # effects=True: a helper used inside an expression that also stores (a memo it keeps):
+                # its stores / calls / events join the caller's path together with the value
+                p.ret = copy_replace(p.ret, lambda n_: None)
+                p.ret._effects = p
             res.append((p.ret, p.conds))
         return res or None
 
@@ -414,6 +419,11 @@ class SymExec:
                 p2.conds = p2.conds + tuple(c for c in hc if c not in p2.conds)
                 if isinstance(val, ast.Name) and val.id == '_raise':
                     p2._raised = True
+                q_ = getattr(val, '_effects', None)
+                if q_ is not None:
+                    p2.stores += q_.stores
+                    p2.calls += q_.calls
+                    p2.events += [ev[:-1] + (path.loops + ev[-1],) for ev in q_.events]
             if not feasible:
                 continue
             v2 = copy_replace(v, lambda x: repl.get(id(x)))
@@ -1550,6 +1560,11 @@ def module_constants(module):
         if isinstance(v, ast.UnaryOp) and isinstance(v.op, (ast.USub, ast.UAdd)):
             a = resolve(v.operand, busy)
             return None if a is None else ast.UnaryOp(op=v.op, operand=a)
+        if isinstance(v, ast.Attribute) and (dotted(v) or '') in ('np.pi', 'numpy.pi', 'math.pi', 'np.e', 'math.e'):
+            return v
+        if isinstance(v, ast.BinOp) and isinstance(v.op, (ast.Div, ast.Pow)):
+            a, b = resolve(v.left, busy), resolve(v.right, busy)
+            return None if a is None or b is None else ast.BinOp(left=a, op=v.op, right=b)
         if isinstance(v, ast.Name):
             if v.id in out:
                 return out[v.id]
